@@ -10,7 +10,8 @@ A relay entry is a plain JSON-able dict::
     {"nick": "Unnamed", "id": "<40 hex, upper>", "digest": "<40 hex>",
      "published": "2026-03-01 12:00:00", "ip": "192.0.2.7", "orport": 9001, "dirport": 0,
      "a": ["[2001:db8::1]:9001", ...],        # zero or more "a" lines (dir-spec: any number)
-     "flags": ["Fast", "Guard", ...],          # the "s" line (exactly once), as written
+     "flags": ["Fast", "Guard", ...],          # the "s" line (exactly once), as written; [] -> "s " (dir-spec:
+                                               # "s" SP Flags NL with Flags a possibly empty series)
      "bw": 1234 | None,                        # "w Bandwidth=" (at most once) or no w line
      "wx": ["Unmeasured=1"],                   # further w-line keywords (after Bandwidth=)
      "p": "accept 80,443" | None}              # "p" line (at most once) or none
@@ -227,7 +228,7 @@ def selftest():
                 "orport": rnd.randint(1, 65535), "dirport": rnd.choice([0, 80, 9030]),
                 "a": ["[2001:db8::%x]:%d" % (rnd.randint(1, 65535), rnd.randint(1, 65535))
                       for _ in range(rnd.choice([0, 0, 1, 2]))],
-                "flags": sorted(rnd.sample(KNOWN_FLAGS, rnd.randint(1, 6))),
+                "flags": sorted(rnd.sample(KNOWN_FLAGS, rnd.randint(0, 6))),
                 "bw": rnd.choice([None, 0, 7, 51500]),
                 "wx": [], "p": rnd.choice([None, "reject 1-65535", "accept 80,443"])})
             if relays[-1]["bw"] is not None and rnd.random() < 0.2:
